@@ -12,9 +12,9 @@ from lib.common import log
 
 SPEC = common.SPEC / "observer"
 FLAGS = ["-O1", "-g", "-UNDEBUG", "-fsanitize=address,undefined", "-fno-sanitize=nonnull-attribute", "-fno-omit-frame-pointer"]
-PLAN = [("int", ["int", "long"]), ("uns", ["uns"]), ("flt", ["float", "double"]), ("str", ["str"])]
+PLAN = [("int", ["int", "long"]), ("uns", ["uns"]), ("flt", ["float", "double"]), ("fltc", ["fcoarse"]), ("str", ["str"])]
 ASSUMPTIONS = [
-    "floating point values are multiples of 1/4 and the tolerance is 0.3, so every comparison and operation is exact in binary",
+    "floating point values are multiples of 1/4 and the tolerances are 0.3 and 1.5 (the latter larger than one increment), so every comparison and operation is exact in binary",
     "operations stay inside the model's value domain (no overflow, no division by zero)",
     "exhaustive over the stated value domains, operand sets and two subscribers; other values are not sampled",
 ]
